@@ -623,7 +623,8 @@ class C02(Base):
         cs += ['enc %s %s' % (fam, pk.tok(fam, p)) for fam, p in ps]
         for fam in ('v3', 'v5'):
             extra = 0 if fam == 'v3' else 1
-            for rl in (268435454, 268435455, 268435456, 268435457, 300000000):
+            for rl in (126, 127, 128, 129, 16382, 16383, 16384, 16385, 2097150, 2097151, 2097152, 2097153,
+                       268435454, 268435455, 268435456, 268435457, 300000000):
                 for q in (0, 1):
                     tl = 3
                     pl = rl - 2 - tl - (2 if q else 0) - extra
@@ -651,7 +652,7 @@ class C02(Base):
                 if f.get('len') != 'err InvalidVarByteInt' or f.get('enc') != 'err InvalidVarByteInt':
                     return 'packet with remaining length %d is not refused: len=%s enc=%s' % (rl, f.get('len'), f.get('enc'))
             else:
-                want = 'ok %d' % (rl + 5)
+                want = 'ok %d' % (rl + 1 + len(pk.vbi(rl)))
                 if f.get('len') != want or f.get('enc') != want:
                     return 'packet with remaining length %d: len=%s enc=%s' % (rl, f.get('len'), f.get('enc'))
             return None
@@ -692,7 +693,7 @@ class C02(Base):
 @register
 class C10(Base):
     id = 'C10'
-    ops = ['enc']
+    ops = ['enc', 'code']
     profiles = ('release',)
     rule = ('the C01 packet pool (every enum variant written as a wire number, every property) encoded by the implementation; '
             'the judge feeds the implementation\'s bytes to the extracted reference parser Spec.parse (independent tables, '
@@ -702,11 +703,15 @@ class C10(Base):
         cs = self.corpus()
         ps, dist = both_pools(rng, tier)
         cs += ['enc %s %s' % (fam, pk.tok(fam, p)) for fam, p in ps]
+        import props2
+        cs += props2.code_cases()
         return cs, dist
 
     def spec_phase(self, cases, act, workdir, prof):
         lines, idx = [], []
         for i, (c, a) in enumerate(zip(cases, act)):
+            if not c.startswith('enc '):
+                continue
             b = enc_bytes(fields(lib.normalize(a)))
             if b is not None:
                 idx.append(i)
@@ -718,6 +723,9 @@ class C10(Base):
         return res
 
     def judge(self, case, line, spec, ctx, i):
+        if case.startswith('code '):
+            import props2
+            return props2.judge_code(case, line)
         if spec is None:
             return 'encode failed: ' + line[:100]
         want = 'ok ' + case.split(' ', 2)[2]
@@ -726,7 +734,7 @@ class C10(Base):
         return None
 
     def nontrivial(self, case, line):
-        return case.split()[2] not in ('pingreq', 'pingresp')
+        return case.startswith('code ') or case.split()[2] not in ('pingreq', 'pingresp')
 
 
 # ====================================================================== C09
@@ -968,6 +976,39 @@ class C12(DecBase):
                            ('v5', ('unsubscribe', 5, g.props('unsubscribe'), [g.topic_filter(), flt]))):
                 cs.append('dec %s %s' % (fam, pk.hx(pk.encode(fam, p))))
                 hist(dist, 'shared-filters')
+        # ill-formed UTF-8 of every kind (truncated at the end, overlong, surrogate, > U+10FFFF, lone
+        # continuation) in every kind of text position and in flagged payloads: same-length replacement of a placeholder
+        bad = [b'\xc3', b'\xe4\xbd', b'\xf0\x9f\x98', b'\xc0\x80', b'\xed\xa0\x80', b'\xf4\x90\x80\x80', b'\x80', b'\xff',
+               b'\xe0\x9f\xbf', b'\xf0\x8f\xbf\xbf']
+        for pat in bad:
+            ph = (b'QZJXKWVY')[:len(pat)]
+            for pre in (b'', b'hi'):
+                x = pre + ph
+                frames = [
+                    ('v5', ('publish', 0, 0, 1, 9, b't', ({1: 1}, []), x)),
+                    ('v5', ('publish', 0, 0, 0, 0, b't', ({3: x}, [(b'k', b'v')]), b'p')),
+                    ('v5', ('publish', 0, 0, 0, 0, b't', ({}, [(x, b'v')]), b'p')),
+                    ('v5', ('publish', 0, 0, 0, 0, b't', ({}, [(b'k', x)]), b'p')),
+                    ('v5', ('publish', 0, 0, 0, 0, b't', ({8: x}, []), b'p')),
+                    ('v5', ('publish', 0, 0, 0, 0, x, ({}, []), b'p')),
+                    ('v5', ('connect', 5, 1, 10, ({21: x}, [(b'a', x)]), b'c', (1, 0, ({1: 1}, [(x, b'b')]), b'w', x), x, None)),
+                    ('v5', ('connect', 5, 1, 10, ({}, []), x, (0, 0, ({3: x}, []), x, b'm'), None, None)),
+                    ('v5', ('connack', 0, 0, ({31: x, 18: x, 26: x, 28: x}, [(b'k', x)]))),
+                    ('v5', ('puback', 3, 16, ({31: x}, [(x, x)]))),
+                    ('v5', ('suback', 3, ({31: x}, [(b'k', x)]), [0])),
+                    ('v5', ('subscribe', 3, ({}, [(b'k', x)]), [(b'a/' + x, 1, 0, 0, 0)])),
+                    ('v5', ('unsubscribe', 3, ({}, [(x, b'v')]), [x])),
+                    ('v5', ('disconnect', 0, ({31: x, 28: x}, [(b'k', x)]))),
+                    ('v5', ('auth', 24, ({21: x, 31: x}, [(x, b'v')]))),
+                    ('v3', ('publish', 0, 0, 0, 0, b'a/' + x, b'p')),
+                    ('v3', ('connect', 4, 1, 10, x, (1, 0, x, b'm'), x, b'pw')),
+                    ('v3', ('subscribe', 3, [(x, 1)])),
+                    ('v3', ('unsubscribe', 3, [b'ok', x])),
+                ]
+                for fam, p in frames:
+                    b = pk.encode(fam, p).replace(x, pre + pat)
+                    cs.append('dec %s %s' % (fam, pk.hx(b)))
+                    hist(dist, 'bad-utf8-everywhere')
         return cs, dist
 
     def judge(self, case, line, spec, ctx, i):
